@@ -359,12 +359,17 @@ def read_headers(sock: socket.socket) -> tuple:
         if not line:
             break
         trace(line)
-        if not status:
+        if status is None:
             status_info = line.split(" ", 2)
-            try:
-                status = int(status_info[1])
-            except (IndexError, ValueError):
+            # a status code is three (ASCII) digits: int() alone would also take "+101", "1_01", ...
+            if (
+                len(status_info) < 2
+                or len(status_info[1]) != 3
+                or not status_info[1].isascii()
+                or not status_info[1].isdecimal()
+            ):
                 raise WebSocketException(f"Invalid status line: {line}")
+            status = int(status_info[1])
             if len(status_info) > 2:
                 status_message = status_info[2]
         else:
